@@ -121,6 +121,20 @@ class PInterp(FHInterp):
             return {"pandas.Series"}
         return FHInterp.kinds_of(self, v)
 
+    def getattr(self, base, attr, e, st, frame):
+        if attr == "index" and isinstance(base, Opq) and base.tag == "m:combine_first" and len(base.args) == 2 \
+                and all(isinstance(a, Arr) for a in base.args):
+            # pandas: the result of a.combine_first(b) is indexed by the sorted union of both indexes
+            return Opq("union-index", [a.name for a in sorted(base.args, key=lambda a: a.name)])
+        return FHInterp.getattr(self, base, attr, e, st, frame)
+
+    def index(self, base, idx, e, st, frame):
+        if isinstance(base, Opq) and base.tag == "union-index":
+            li = as_lin_val(idx)
+            if li is not None and li.is_const() and li.const in (0, -1):
+                return Lin.sym("%s(%s)" % ("max" if li.const == -1 else "min", ", ".join("%s.index[%d]" % (n, li.const) for n in base.args)))
+        return FHInterp.index(self, base, idx, e, st, frame)
+
     def _is(self, a, b):
         for x, y in ((a, b), (b, a)):
             if isinstance(y, K) and y.v is None and isinstance(x, (PV, Pred)):
@@ -1546,7 +1560,7 @@ def rule_r4(ctx, repo):
                                   "_set_y_X", "_set_fh", "check_equal_time_index"))
     me, fh = make_self(it, stack, True, {"forecasters": Opq("self.forecasters"), "final_regressor": Opq("self.final_regressor")})
     rets, raises, k, fn = run_method(it, repo, me, "fit", {"y": Arr("y", None, "series"), "X": K(None), "fh": fh})
-    ev = [e for e in own_events(it, ("loc", "iloc")) if e["func"] is fn]
+    ev = [e for e in own_events(it, ("loc", "iloc")) if isinstance(e["target"], Arr) and e["target"].name == "y"]
     loc = ctx.loc(k.module, fn)
     if len(ev) < 2:
         ctx.undecided("R4", "StackingForecaster.fit:hold-out", "expected two window selections, found %d" % len(ev), loc)
